@@ -265,6 +265,24 @@ def arm_context(b, x, dom=None):
         info = enum_switch_info(b, i)
         if info is None:
             continue
+        succs = sorted(set(j for j, _ in b.succ(i)))
+        # edges of the switch from which x is reachable without coming back through the switch
+        through = [j for j in succs if j == x or x in b.reach_from([j], removed=frozenset([i]))]
+        if not through or len(through) == len(succs):
+            continue
+        vs = []
+        for j in through:
+            for v in edge_variants(b, i, j) or []:
+                if v not in vs:
+                    vs.append(v)
+        ctx.append((info[0].split('::')[-1], vs))
+    return ctx
+    for i in sorted(dom[x]):
+        if i == x:
+            continue
+        info = enum_switch_info(b, i)
+        if info is None:
+            continue
         succs = set(j for j, _ in b.succ(i))
         through = [j for j in succs if j == x or j in dom[x]]
         if len(through) != 1:
@@ -272,3 +290,37 @@ def arm_context(b, x, dom=None):
         vs = edge_variants(b, i, through[0])
         ctx.append((info[0].split('::')[-1], vs))
     return ctx
+
+
+def accept_edge(b, sw, tgt, can):
+    """Does taking edge sw->tgt keep the sink reachable *through a true bool-phi*?  For `matches!` the
+    switch arms assign a bool and rejoin; follow to the bool switch."""
+    # direct: tgt cannot reach sink -> reject
+    if tgt not in can:
+        return False
+    # bool-phi: tgt block assigns const bool to a local then joins a switch on it
+    blk = b.blocks[tgt]
+    for s in blk['s']:
+        r = s['r']
+        if r['k'] == 'use' and 'k' in r['o'][0] and r['o'][0]['k'].get('ty') == 'bool' and not s['d']['pr']:
+            val = r['o'][0]['k'].get('v')
+            loc = s['d']['l']
+            # find the switch on loc downstream
+            j = tgt
+            for _ in range(4):
+                t = b.blocks[j]['t']
+                if t['k'] == 'goto':
+                    j = t['t']
+                    continue
+                if t['k'] == 'switch' and t['o'].get('l') == loc:
+                    nxt = None
+                    for v, bb in t['targets']:
+                        if v == val:
+                            nxt = bb
+                    if nxt is None:
+                        nxt = t['else']
+                    return nxt in can
+                break
+    return True
+
+
